@@ -128,9 +128,13 @@ def h_gen_seg(si: int, v1: int, v2: int, v3: int, two: bool, m1: int, m2: int, d
 POSITIONS = ((1, None), (2, 1), (2, 2), (2, 3), (3, None))
 
 
-def h_gen_seg_multi(p1: int, p2: int, p3: int, n: int, m: int) -> bool:
+ECODES = ('7', '3', '1', '6', '10')
+
+
+def h_gen_seg_multi(p1: int, p2: int, p3: int, n: int, m: int, ec: int) -> bool:
     '''
-    pre: 0 <= p1 < 5 and 0 <= p2 < 5 and 0 <= p3 < 5 and 1 <= n <= 3 and 0 <= m < NH
+    pre: 0 <= p1 < 5 and 0 <= p2 < 5 and 0 <= p3 < 5 and 1 <= n <= 3 and 0 <= m < NH and 0 <= ec < 5
+    pre: ec == 0 or m == 0
     pre: p1 != p2 and p1 != p3 and p2 != p3
     post: _
     '''
@@ -149,7 +153,7 @@ def h_gen_seg_multi(p1: int, p2: int, p3: int, n: int, m: int) -> bool:
         else:
             errh.add_ele(MapNode('E%d-%d' % (ele, sub), data_ele='67', seq=sub, in_composite=True, comp_seq=ele))
         msg = 'element problem %d at %d-%s %s' % (k, ele, sub, HOSTILE[m])
-        errh.ele_error('7', msg, 'bad', 'CLM%02d' % ele)
+        errh.ele_error(ECODES[(ec + k) % 5], msg, 'bad', 'CLM%02d' % ele)
         msgs.append(msg)
     src.cur_line = 12
     out = Sink()
